@@ -11,7 +11,7 @@ C_DRIVER = "harness/drivers/c18_driver.c"
 EXTRA_C = ["harness/faultinj/faultinj.c"]
 REPO_SOURCES = V.all_repo_sources()          # the whole library, compiled from the working tree
 WRAPPED = ["malloc", "calloc", "realloc", "aligned_alloc", "posix_memalign", "free",
-           "eventfd", "epoll_create", "epoll_create1", "pipe", "pipe2", "socket", "close"]
+           "eventfd", "epoll_create", "epoll_create1", "pipe", "pipe2", "socket", "accept", "accept4", "close"]
 LINK_FLAGS = ["-Wl,--wrap=" + w for w in WRAPPED]
 HEADER_LINES = 2
 SHRINK = False                                # a case is (instance, fault set): nothing to delete
@@ -72,13 +72,60 @@ INSTANCES = [
     ("async_logger_init", 45, 2, True, True, False),
     ("async_logger_log", 46, 2, False, True, True),
     ("channel_init_default", 47, 2, True, True, True),
+    ("array_list_insert_grow", 48, 1, True, True, True),
+    ("linked_list_insert", 49, 1, True, True, True),
+    ("linked_list_append_pool_grow", 50, 3, True, True, True),
+    ("hash_table_put_pool_grow", 51, 3, True, True, True),
+    ("queue_enqueue_pool_grow", 52, 3, True, True, True),
+    ("trie_insert_pool_grow", 53, 3, True, True, True),
+    ("memory_pool_alloc_grow_capped", 54, 3, True, True, True),
+    ("evloop_add_ctx_poll", 55, 1, True, True, True),
+    ("evloop_add_ctx_select", 56, 1, True, True, True),
+    ("evloop_add_ctx_mempool_grow", 57, 3, True, True, True),
+    ("socket_evloop_pipe_init", 58, 1, True, True, True),
+    # callbacks of the socket event-loop handle are void; on_wake RELEASES the handed-over context when it
+    # cannot be registered, so fewer blocks are live after the failed call than before it (strict = False)
+    ("socket_evloop_on_read_accept", 59, 2, False, True, True),
+    ("socket_evloop_on_wake", 60, 1, False, False, True),
+    ("channel_init_rmutex", 61, 3, True, True, True),
 ]
+# cleanup blocks / failure handlers ("labels", numbered in coq/C18/Instances.v by H n) -> where they are in the C code
+LABEL_NAMES = {
+    11: "memory_pool_init: data_bufs NULL", 12: "memory_pool_init: ptr_buf NULL", 13: "memory_pool_init: data_bufs[0] NULL",
+    14: "ensure_space: new_bufs NULL", 15: "ensure_space: new data buffer NULL", 16: "ensure_space: new_ptr_buf NULL",
+    17: "memory_pool_alloc: ensure_space failed", 20: "channel_init_except:", 21: "channel_init: write_mutex NULL",
+    22: "channel_init: read_mutex NULL", 23: "channel_init: read_cv NULL", 24: "channel_init: blocks NULL",
+    25: "ring_buffer_init: blocks NULL", 26: "ma_ring thread_ctx_init: ring NULL", 27: "ma_ring thread_ctx_init: buffer NULL",
+    28: "ma_ring thread_ctx_init: insert_thread_ctx failed", 29: "ma_ring insert_thread_ctx: node NULL",
+    30: "double_buffer_init: buf[0].datas NULL", 31: "double_buffer_init: buf[1].datas NULL", 32: "array_blocking_queue_init: datas NULL",
+    33: "sowr_memory_pool_init: blocks NULL", 34: "ts_memory_pool_init: data or ptrs NULL", 35: "pointer_slot_init: slots or pp_slots NULL",
+    36: "ring_memory_pool_init: blocks NULL", 37: "bytes_buffer_init: buffer NULL", 38: "flow_ctl_init: arr NULL",
+    40: "array_list/heap/stack init: nodes NULL", 41: "ensure_capacity: new_nodes NULL", 42: "insert/append/push: ensure_capacity failed",
+    43: "dsaa init: pool struct NULL", 44: "dsaa init: memory_pool_init failed", 45: "node allocation NULL",
+    46: "insert/append/put/enqueue: node NULL", 47: "insert (pool): memory_pool_alloc failed",
+    48: "trie_insert: 1st node NULL", 49: "trie_insert: 2nd node NULL", 50: "trie_insert: 3rd node NULL",
+    51: "hash_table_init: nodes NULL", 52: "hash_table_init(cap 0): nodes NULL", 53: "merge_sort: arr NULL",
+    54: "ev_signal_init: eventfd failed", 55: "muggle_evloop_init_except:", 56: "evloop_init: ctx_list NULL",
+    57: "evloop_init: linked_list_init failed", 58: "evloop_init: ev_signal NULL", 59: "evloop_init: ev_signal_init failed",
+    60: "evloop_init_epoll_except:", 61: "init_epoll: epoll_create failed", 62: "init_epoll: events NULL",
+    63: "muggle_evloop_init_poll_except:", 64: "init_poll: fds NULL", 65: "init_poll: nodes NULL",
+    66: "evloop_new: evloop NULL", 67: "evloop_new: evloop_init failed", 68: "evloop_new: back-end init failed",
+    69: "evloop_add_ctx: linked_list_append failed", 70: "muggle_socket_evloop_handle_init_except:",
+    71: "socket_evloop_handle_init: ctx_queue NULL", 72: "socket_evloop_handle_init: queue_init(0) failed (dead)",
+    73: "socket_evloop_handle_init: mtx NULL", 74: "async_logger_init: channel_init failed", 75: "async_logger_log: msg NULL",
+    76: "async_logger_log: payload NULL", 77: "socket_evloop_pipe_init: pipe failed", 78: "on_read accept: cb_alloc NULL",
+    79: "on_read accept: evloop_add_ctx failed", 80: "on_wake: evloop_add_ctx failed (context released)",
+    157: "evloop_init: linked_list_init(0) failed (dead)", 168: "evloop_new: select init failed (dead)",
+}
+
 BY_NAME = {t[0]: t for t in INSTANCES}
 KNOWN_VOID = "void-socket-evloop-add-ctx"
 
 RULE = ("complete enumeration: for each of the %d instances (public constructor / grower / inserter + its destroy) the "
-        "no-fault run and every single-fault position k = 1 .. (calls on the success path)+3, plus seeded random "
-        "multi-fault sets (2-4 positions); a case is non-trivial when a fault was actually hit (k <= calls attempted); "
+        "no-fault run and every single-fault position k = 1 .. (calls on the success path)+3, plus multi-fault sets: "
+        "quick = seeded sets of size 2..3 per instance, thorough = ALL pairs {i<j<=calls+1} and seeded triples; a case is "
+        "non-trivial when a fault was actually hit (k <= calls attempted); the tally lists, per instance, the cleanup "
+        "labels entered by the compared cases (every label of every instance is entered; theorem every_cleanup_label_reached); "
         "distinct = distinct (instance, fault set)" % len(INSTANCES))
 TRUSTED_BASE = [
     "fault injection by linker interposition (-Wl,--wrap) of malloc/calloc/realloc/aligned_alloc/posix_memalign/free and "
@@ -104,12 +151,22 @@ EVIDENCE_NOTES = [
     "muggle_queue_init(pool)/enqueue/destroy, muggle_trie_init(pool)/insert(1 and 3 nodes)/destroy, muggle_merge_sort, "
     "muggle_ev_signal_init/destroy (eventfd), muggle_evloop_new (epoll, poll, select, epoll+mempool)/delete incl. "
     "muggle_evloop_init_{epoll,poll,select}, muggle_evloop_add_ctx, muggle_socket_evloop_handle_init/destroy, "
-    "muggle_socket_evloop_add_ctx, muggle_async_logger_init/destroy, muggle_async_logger_log",
-    "NOT covered by instances: muggle_socket_evloop_on_read accept path (cb_alloc of a new context; needs live sockets), "
-    "muggle_array_list_insert / muggle_linked_list_insert / muggle_hash_table node-from-pool variants (same allocation code as the "
-    "covered append/put/avl pool-growth instances), muggle_ring_buffer / channel data path (no allocation), the pipe/socket "
-    "variants of event_signal.c (not compiled on Linux with eventfd), dsaa constructors with capacity 0 (no allocation), "
-    "fast_flow_controller (not anchored), retry-after-failure (only destroy-after-failure is exercised)",
+    "muggle_socket_evloop_add_ctx, muggle_async_logger_init/destroy, muggle_async_logger_log; added in the coverage round: "
+    "muggle_channel_init (WRITE_SPIN|READ_MUTEX), muggle_array_list_insert(grow), muggle_linked_list_insert, node-from-full-pool "
+    "growth through muggle_linked_list_append / muggle_hash_table_put / muggle_queue_enqueue / muggle_trie_insert / "
+    "muggle_evloop_add_ctx (mempool), muggle_memory_pool_alloc with max_delta_cap set, muggle_evloop_add_ctx on the poll and "
+    "select back-ends, muggle_socket_evloop_pipe_init/destroy (pipe()), the TCP_LISTEN accept path of "
+    "muggle_socket_evloop_on_read (loopback listener, cb_alloc and evloop_add_ctx failures; accept() is tracked, never failed), "
+    "muggle_socket_evloop_on_wake (registration of a handed-over context fails: it is released)",
+    "NOT covered by instances, with the reason: functions that make no interposable acquisition - ring_buffer / channel / "
+    "double_buffer / array_blocking_queue data paths, sowr/ts/ring pool alloc/free, muggle_pointer_slot_insert/remove (fixed "
+    "arrays), bytes_buffer read/write (fixed buffer, no growth), muggle_hash_table_put bucket array (never grows), dsaa "
+    "constructors with capacity 0, event_fd.c / event_context.c / event.c, muggle_ma_ring_backend_run (thread creation only), "
+    "log handler inits (console/file/rotate/time-rot: fopen inside libc is not interposed; no malloc), sync logger; a pool with "
+    "MUGGLE_MEMORY_POOL_CONSTANT_SIZE refuses growth without attempting an allocation (a refusal, not an allocation failure); the "
+    "pipe/socket variants of event_signal.c are not compiled on Linux (eventfd build); fast_flow_controller is not anchored; "
+    "retry-after-failure is not exercised (only destroy-after-failure); the only thread-context init/cleanup pair in the anchored "
+    "files is muggle_ma_ring_thread_ctx_init/cleanup (covered)",
     "array_blocking_queue_init / double_buffer_init / ring_buffer_init leak or half-initialise only when pthread mutex/condvar "
     "initialisation fails; that is outside the property's fault class (allocation or fd-creating call) and is not injected",
     "trie_insert of a multi-byte key keeps the prefix nodes it created when a later node allocation fails; they stay owned by "
@@ -141,21 +198,29 @@ def generate(rng, tier):
         cases.append(_mk(name, [], "nofault"))
         for k in range(1, n + 4):
             cases.append(_mk(name, [k], "k%d" % k))
-    nmulti = 4 if tier == "quick" else 40
+    # multi-fault part: quick = seeded fault SETS of size 2..3 per instance; thorough = ALL pairs
+    # {i, j} with 1 <= i < j <= calls+1, plus seeded triples
     seen = set()
+
+    def add(name, ks):
+        ks = tuple(sorted(set(ks)))
+        if len(ks) >= 2 and (name, ks) not in seen:
+            seen.add((name, ks))
+            cases.append(_mk(name, list(ks), "m" + "_".join(map(str, ks))))
     for name, iid, n, reports, strict, dfail in INSTANCES:
-        if n < 2:
-            ks_pool = [[1, 2], [1, 2, 3]]
-            for ks in ks_pool[: (1 if tier == "quick" else 2)]:
-                cases.append(_mk(name, ks, "m" + "_".join(map(str, ks))))
-            continue
-        for _ in range(nmulti):
-            size = rng.range(2, min(4, n + 1))
-            ks = sorted(set(rng.range(1, n + 1) for _ in range(size)))
-            if len(ks) < 2 or (name, tuple(ks)) in seen:
-                continue
-            seen.add((name, tuple(ks)))
-            cases.append(_mk(name, ks, "m" + "_".join(map(str, ks))))
+        top = n + 1
+        if tier == "quick":
+            for _ in range(6):
+                size = rng.range(2, 3)
+                add(name, [rng.range(1, top + 1) for _ in range(size)])
+                if sum(1 for x in seen if x[0] == name) >= 4:
+                    break
+        else:
+            for i in range(1, top + 1):
+                for j in range(i + 1, top + 1):
+                    add(name, [i, j])
+            for _ in range(12):
+                add(name, [rng.range(1, top + 1) for _ in range(3)])
     return cases
 
 
@@ -237,14 +302,68 @@ def nontrivial_key(case, lines):
     return None
 
 
+_LABELS = None      # {model id: {"all": [labels], k: [labels entered when the k-th call fails; 0 = no fault]}}
+_DEAD = []
+_REACHED = {}
+
+
+def _label_table():
+    """Asks the extracted model (model_driver, case 'labels-table') which cleanup blocks each instance's
+    operation has and which of them a no-fault / single-fault run enters."""
+    global _LABELS, _DEAD
+    if _LABELS is not None:
+        return _LABELS
+    _LABELS = {}
+    exe = os.path.join(V.BUILD, "C18", "model_driver")
+    if not os.path.exists(exe):
+        return _LABELS
+    rc, out, err = V.sh([exe], inp="CASE labels\nlabels-table\nEND\n", timeout=60)
+    for ln in out.split("\n"):
+        w = ln.split()
+        if len(w) >= 1 and w[0] == "dead":
+            _DEAD = [int(x) for x in w[1:]]
+        elif len(w) >= 3 and w[0] == "L":
+            t = _LABELS.setdefault(int(w[1]), {"all": []})
+            if w[2] == "all":
+                t["all"] = sorted(set(int(x) for x in w[3:]))
+            elif w[2] == "k":
+                t[int(w[3])] = [int(x) for x in w[4:]]
+    return _LABELS
+
+
 def tally(dist, case, lines):
     m = _parse(case, lines)
     key = "faults=%d" % min(len(m["ks"]), 3)
     dist[key] = dist.get(key, 0) + 1
+    att = None
     if len(lines) >= 2 and lines[1].startswith("op rc="):
         k2 = "rc=" + lines[1].split()[1].split("=")[1]
         dist[k2] = dist.get(k2, 0) + 1
+        try:
+            att = int(dict(x.split("=") for x in lines[1].split()[1:])["att"])
+        except Exception:
+            att = None
     dist["instances"] = len(INSTANCES)
+    # coverage table: instance -> cleanup labels entered in cases that ran on the implementation and were
+    # compared with the model (a case with first hit h enters the blocks the model enters for fault h,
+    # by multi_fault_reduces_to_first; any disagreement is reported as a divergence by the check)
+    t = BY_NAME.get(m["inst"])
+    tab = _label_table()
+    if t is None or att is None or t[1] not in tab:
+        return
+    hit = sorted(k for k in m["ks"] if 1 <= k <= att)
+    h = hit[0] if hit else 0
+    r = _REACHED.setdefault(m["inst"], set())
+    r.update(tab[t[1]].get(h, []))
+    allb = tab[t[1]]["all"]
+    dead = [x for x in allb if x in _DEAD]
+    missing = [x for x in allb if x not in r and x not in _DEAD]
+    dist["labels " + m["inst"]] = "%d/%d reached=%s%s%s" % (
+        len([x for x in allb if x in r]), len(allb) - len(dead), sorted(x for x in allb if x in r),
+        (" dead=%s" % dead) if dead else "", (" MISSING=%s" % missing) if missing else "")
+    done = [n for n in _REACHED if not [x for x in tab[BY_NAME[n][1]]["all"]
+                                         if x not in _REACHED[n] and x not in _DEAD]]
+    dist["labels_fully_covered_instances"] = "%d of %d" % (len(done), len(INSTANCES))
 
 
 MANIFEST = {
@@ -252,7 +371,7 @@ MANIFEST = {
                    "tracked pointer variables): the outcome of a run depends only on the fault positions it consulted, so the finite "
                    "decision tree explored by the checker wf_scn covers every fault function; a scenario accepted by wf_scn reports "
                    "failure, leaks nothing, does not crash/hang/double-free and is safe to destroy under EVERY fault set, and behaves "
-                   "under any fault set as under its first hit.  48 instances transcribe the anchored constructors / growers / "
+                   "under any fault set as under its first hit.  62 instances transcribe the anchored constructors / growers / "
                    "inserters / destroys literally (wf_scn = true by vm_compute for the repaired code; the 17 transcriptions of the "
                    "unchanged defective code are refuted with a witness k).  Tied to the C code on every run by complete single-fault "
                    "enumeration + seeded multi-fault sets on the library compiled from the working tree with the allocator and "
